@@ -248,7 +248,12 @@ impl Indexable for ast::Defset {
     type Output = ();
     fn index(&self, ctx: &mut IndexCtx) -> Option<Self::Output> {
         let (name, define_loc) = utils::identifier(&self.name()?, ctx)?;
-        let typ = self.r#type()?.index(ctx)?;
+        // the body is indexed whatever becomes of the element type (an include statement in
+        // it belongs to the workspace either way)
+        let typ = self
+            .r#type()
+            .and_then(|typ| typ.index(ctx))
+            .unwrap_or(Type::Unknown);
         let defset = Defset::new(name, typ, define_loc);
         let defset_id = ctx.symbol_map.add_defset(defset);
 
@@ -294,7 +299,12 @@ impl Indexable for ast::ForeachIterator {
     type Output = (EcoString, VariableId);
     fn index(&self, ctx: &mut IndexCtx) -> Option<Self::Output> {
         let (name, define_loc) = utils::identifier(&self.name()?, ctx)?;
-        let typ = self.init()?.index(ctx)?;
+        // an iterator whose element type cannot be told (`!cond(...)`, ...) still declares
+        // the variable; otherwise the whole body of the foreach would go unindexed
+        let typ = self
+            .init()
+            .and_then(|init| init.index(ctx))
+            .unwrap_or(Type::Uninitialized);
 
         let variable = Variable::new(name.clone(), typ, VariableKind::Foreach, define_loc);
         let variable_id = ctx.symbol_map.add_variable(variable);
